@@ -67,7 +67,10 @@ TimeU == UNION {{TimeBE(TimeOf(x % 10, 1)), TimeBE(TimeOf(x % 10, 2))} : x \in C
 
 \* ---- HOTP / TOTP values: one HMAC per (key, 8 octets), evaluated once
 MacU == IF Family = "hotp" THEN CtrU ELSE IF Family = "totp" THEN TimeU ELSE {}
-MacTab == TLCEval([x \in KeyIdxs \X MacU |-> HMAC(KeyOf(x[1]), x[2])])
+\* (an explicit function built with :> / @@: TLC pre-evaluates it once with the constants; a definition
+\*  wrapped in TLCEval is NOT pre-evaluated and a [x \in S |-> ...] is re-evaluated at every application)
+MkTab(S, Fn(_)) == FoldLeft(LAMBDA acc, x : acc @@ (x :> Fn(x)), <<>>, SetToSeq(S))
+MacTab == MkTab(KeyIdxs \X MacU, LAMBDA x : HMAC(KeyOf(x[1]), x[2]))
 OtpHTab(d, k, c) == DT(MacTab[<<KeyIdx(k), c>>], d)
 
 \* ---- OCRA
@@ -80,7 +83,7 @@ SuiteStr(i) ==
 Partner(i) == CASE i = 1 -> 4 [] i = 2 -> 3 [] i = 3 -> 2 [] i = 4 -> 1 [] i = 5 -> 4
 SuitesUsed == IF Family # "ocra" THEN {} ELSE
               {x \div 10 : x \in Cases} \cup (IF "Z" \in Alphabet THEN {Partner(x \div 10) : x \in Cases} ELSE {})
-PrTab == TLCEval([i \in SuitesUsed |-> SuiteParse(SuiteStr(i))])
+PrTab == MkTab(SuitesUsed, LAMBDA i : SuiteParse(SuiteStr(i)))
 SuiteIdx(u) == CHOOSE i \in SuitesUsed : SuiteStr(i) = u
 \* challenges (decimal digits) and time stamps: two pairs
 Q(w) == IF w = 1 THEN [i \in 1..8 |-> 48 + (Data(8, 50)[i] % 10)] ELSE [i \in 1..4 |-> 48 + (Data(4, 51)[i] % 10)]
@@ -91,9 +94,9 @@ SessIdxs == IF "S2" \in Alphabet THEN {1, 2} ELSE {1}
 QIdxs == IF Alphabet \cap {"Rq", "Vq"} # {} THEN {1, 2} ELSE {1}
 SessIdx(i, p, s) == IF p = TakeN(SessP(1), PrTab[i].plen) /\ s = TakeN(SessS(1), PrTab[i].slen) THEN 1 ELSE 2
 OU == UNION {{<<i, j, c, w>> : j \in SessIdxs, c \in (IF PrTab[i].ctr THEN CtrU ELSE {<<>>}), w \in QIdxs} : i \in SuitesUsed}
-OTab == TLCEval([x \in OU |-> LET u == SuiteStr(x[1])  p == PrTab[x[1]]
-                              IN OCRAWith(u, p, Key1, Q(x[4]), x[3], TakeN(SessP(x[2]), p.plen),
-                                          TakeN(SessS(x[2]), p.slen), TimeBE(T(x[4])))])
+OTab == MkTab(OU, LAMBDA x : LET u == SuiteStr(x[1])  p == PrTab[x[1]]
+                            IN OCRAWith(u, p, Key1, Q(x[4]), x[3], TakeN(SessP(x[2]), p.plen),
+                                        TakeN(SessS(x[2]), p.slen), TimeBE(T(x[4]))))
 OtpOTab(u, k, q, c, p, s, tbe) ==
   LET i == SuiteIdx(u) IN OTab[<<i, SessIdx(i, p, s), c, IF q = Q(1) THEN 1 ELSE 2>>]
 
